@@ -481,6 +481,12 @@ def gen_arith(draw):
     A_ = tuple(draw(q_for(ta)) for _ in range(3))
     B_ = tuple(draw(q_for(tb)) for _ in range(3))
     k = draw(q_for(ta))
+    if ta == "float" and tb == "float":
+        # exact dyadic rescaling: the component formulas must hold at every magnitude (products down to ~1e-15)
+        sa = F(1, 2 ** draw(st.sampled_from((0, 0, 10, 20, 26))))
+        sb = F(1, 2 ** draw(st.sampled_from((0, 0, 10, 20, 26))))
+        A_ = tuple(x * sa for x in A_)
+        B_ = tuple(x * sb for x in B_)
     return ("ARITH", ta, tb, A_, B_, k)
 
 
